@@ -51,25 +51,31 @@ fn c13c_builtin_roles() {
     std::mem::forget((anon, admin, simple, ca));
 }
 
-/// Per-CA grant takes precedence over the blanket grant: a role limited to
-/// CA "a" answers requests for "a" with its set and requests for any other CA
-/// with nothing; non-CA requests use the general set.
-// vk: tier=thorough; timeout=1800; bound=one per-CA entry, handles "a" and "b" concrete, permission sets and permission symbolic
+/// Per-CA grant takes precedence over the blanket grant: with one per-CA
+/// entry for CA "a", requests for "a" are answered from that entry (also when
+/// the blanket grant would allow more, or less), requests for any other CA
+/// from the blanket grant, non-CA requests from the general grant.
+// vk: timeout=900; unwindset=_RINvNvNtCs8xvirJzNMvV_4core3ptr25swap_nonoverlapping_bytes26swap_nonoverlapping_chunksKj8_ECscrgiVT8UQOZ_6object.0:8; bound=one per-CA entry, handles "a" and "b" concrete, all three permission sets and the permission symbolic; constant-hash stub
 #[kani::proof]
-#[kani::unwind(9)]
+#[kani::unwind(4)]
 #[kani::stub(std::hash::RandomState::new, fixed_random_state)]
 #[kani::stub(<std::hash::DefaultHasher as std::hash::Hasher>::finish, const_finish)]
 #[kani::stub(<std::hash::DefaultHasher as std::hash::Hasher>::write, noop_write)]
-fn x13b_role_per_ca_precedence() {
-    let s = any_set();
+fn c13b_role_per_ca_precedence() {
+    let none = any_set();
+    let any = any_set();
+    let pa = any_set();
     let p = any_permission();
     let a = handle("a");
     let b = handle("b");
-    let role = Role::with_resources(s, [a.clone()]);
-    assert!(role.is_allowed(p, None) == s.has(p));
-    assert!(role.is_allowed(p, Some(&a)) == s.has(p));
-    assert!(!role.is_allowed(p, Some(&b)));
-    kani::cover!(role.is_allowed(p, Some(&a)));
+    let mut map: HashMap<MyHandle, PermissionSet> = HashMap::with_hasher(fixed_random_state());
+    map.insert(a.clone(), pa);
+    let role = Role::complex(none, any, map);
+    assert!(role.is_allowed(p, None) == none.has(p));
+    assert!(role.is_allowed(p, Some(&a)) == pa.has(p));
+    assert!(role.is_allowed(p, Some(&b)) == any.has(p));
+    kani::cover!(pa.has(p) && !any.has(p));
+    kani::cover!(!pa.has(p) && any.has(p));
     std::mem::forget((role, a, b));
 }
 
